@@ -2,6 +2,9 @@
 NOTES = ("Contract-based deductive verification of functions extracted mechanically from /repo on every run "
          "(tools/extract, syn spans). exit 0 holds / exit 1 VIOLATION / exit 2 undecided (lost anchor, tool limit). See DESIGN.md.")
 
+# properties whose thorough tier has been run to completion (exit 0) on the unchanged tree
+THOROUGH_VALIDATED = {"C03", "C06", "C12", "C22", "C29"}   # for these thorough == quick + nothing heavier
+
 CHECKS = [
     {"id": "C01", "engine": "kani", "level": "other", "design_ref": "DESIGN.md 0A.1, 0A.2 (D10)",
      "technique": "Kani harnesses on the extracted Entry::equiv (data-section constant pooling) over concrete shape pairs with symbolic values",
